@@ -501,6 +501,13 @@ pub fn run_c09(p: &Params) -> Outcome {
     // large vectors: views with dozens of items, sources beyond one imbl chunk (64)
     let gbig = AGen { maxlen: 110, init_max: 90, vmax: 400, max_ops: 30, ..g.clone() };
     out.merge(rand_adp("C09", p, "c09-rand-large", p.n(6_000, 200_000), &gbig, &|rng| (vec![gen_lim(rng, ALL_KINDS, BASIC_PKS, 100)], rng.chance(1, 2)), &nt));
+    // giant vectors: thousands of items (imbl's tree gets a third level above 4096), limits and views in the thousands
+    let ggiant = AGen { maxlen: 9500, init_max: 9000, vmax: 20_000, min_ops: 8, max_ops: 30, ..g.clone() };
+    out.merge(rand_adp("C09", p, "c09-rand-giant", p.n(150, 4_000), &ggiant, &|rng| (vec![gen_lim(rng, ALL_KINDS, BASIC_PKS, 9000)], rng.chance(1, 2)), &nt));
+    // thousands of messages waiting in a channel of thousands and transactions of thousands of diffs (small
+    // vectors): one poll of a batched chain handles thousands of diffs
+    let gscale = AGen { caps: &[2048, 4096, 8192], maxlen: 40, init_max: 30, vmax: 20_000, min_ops: 1100, max_ops: 2600, poll_pct: 1, txn_pct: 10, lazy_only: true, drop_pm: 0, close_pm: 0, ..g.clone() };
+    out.merge(rand_adp("C09", p, "c09-rand-scale", p.n(100, 3_000), &gscale, &|rng| (vec![gen_lim(rng, ALL_KINDS, BASIC_PKS, 30)], rng.chance(1, 2)), &nt));
     // long histories on small vectors (accumulating state, repeated Resets, many limit changes)
     let glong = AGen { min_ops: 150, max_ops: 400, caps: &[1, 2, 3, 5, 8, 16], ..g.clone() };
     out.merge(rand_adp("C09", p, "c09-rand-long", p.n(1_200, 30_000), &glong, &|rng| (vec![gen_lim(rng, ALL_KINDS, BASIC_PKS, 8)], rng.chance(1, 2)), &nt));
@@ -569,6 +576,19 @@ pub fn run_c10(p: &Params) -> Outcome {
     // large vectors: views with dozens of items, sources beyond one imbl chunk (64)
     let gbig = AGen { maxlen: 110, init_max: 90, vmax: 400, max_ops: 30, ..g.clone() };
     out.merge(rand_adp("C10", p, "c10-rand-large", p.n(6_000, 200_000), &gbig, &|rng| {
+        let m = [0b0101u8, 0b1110, 0b0111, 0b1111, 0b0001][rng.below(5)];
+        (vec![if rng.chance(1, 2) { Stage::Filter(m) } else { Stage::FilterMap(m) }], rng.chance(1, 2))
+    }, &nt));
+    // giant vectors: thousands of items (imbl's tree gets a third level above 4096), limits and views in the thousands
+    let ggiant = AGen { maxlen: 9500, init_max: 9000, vmax: 20_000, min_ops: 8, max_ops: 30, ..g.clone() };
+    out.merge(rand_adp("C10", p, "c10-rand-giant", p.n(150, 4_000), &ggiant, &|rng| {
+        let m = [0b0101u8, 0b1110, 0b0111, 0b1111, 0b0001][rng.below(5)];
+        (vec![if rng.chance(1, 2) { Stage::Filter(m) } else { Stage::FilterMap(m) }], rng.chance(1, 2))
+    }, &nt));
+    // thousands of messages waiting in a channel of thousands and transactions of thousands of diffs (small
+    // vectors): one poll of a batched chain handles thousands of diffs
+    let gscale = AGen { caps: &[2048, 4096, 8192], maxlen: 40, init_max: 30, vmax: 20_000, min_ops: 1100, max_ops: 2600, poll_pct: 1, txn_pct: 10, lazy_only: true, drop_pm: 0, close_pm: 0, ..g.clone() };
+    out.merge(rand_adp("C10", p, "c10-rand-scale", p.n(100, 3_000), &gscale, &|rng| {
         let m = [0b0101u8, 0b1110, 0b0111, 0b1111, 0b0001][rng.below(5)];
         (vec![if rng.chance(1, 2) { Stage::Filter(m) } else { Stage::FilterMap(m) }], rng.chance(1, 2))
     }, &nt));
@@ -644,6 +664,13 @@ pub fn run_c11(p: &Params) -> Outcome {
     // large vectors: views with dozens of items, sources beyond one imbl chunk (64)
     let gbig = AGen { maxlen: 110, init_max: 90, vmax: 400, max_ops: 30, ..g.clone() };
     out.merge(rand_adp("C11", p, "c11-rand-large", p.n(6_000, 200_000), &gbig, &|rng| (vec![*rng.pick(&[Stage::Sort, Stage::SortBy, Stage::SortByKey])], rng.chance(1, 2)), &nt));
+    // giant vectors: thousands of items (imbl's tree gets a third level above 4096), limits and views in the thousands
+    let ggiant = AGen { maxlen: 9500, init_max: 9000, vmax: 20_000, min_ops: 8, max_ops: 30, ..g.clone() };
+    out.merge(rand_adp("C11", p, "c11-rand-giant", p.n(150, 4_000), &ggiant, &|rng| (vec![*rng.pick(&[Stage::Sort, Stage::SortBy, Stage::SortByKey])], rng.chance(1, 2)), &nt));
+    // thousands of messages waiting in a channel of thousands and transactions of thousands of diffs (small
+    // vectors): one poll of a batched chain handles thousands of diffs
+    let gscale = AGen { caps: &[2048, 4096, 8192], maxlen: 40, init_max: 30, vmax: 20_000, min_ops: 1100, max_ops: 2600, poll_pct: 1, txn_pct: 10, lazy_only: true, drop_pm: 0, close_pm: 0, ..g.clone() };
+    out.merge(rand_adp("C11", p, "c11-rand-scale", p.n(100, 3_000), &gscale, &|rng| (vec![*rng.pick(&[Stage::Sort, Stage::SortBy, Stage::SortByKey])], rng.chance(1, 2)), &nt));
     // long histories on small vectors (accumulating state, repeated Resets, many limit changes)
     let glong = AGen { min_ops: 150, max_ops: 400, caps: &[1, 2, 3, 5, 8, 16], ..g.clone() };
     out.merge(rand_adp("C11", p, "c11-rand-long", p.n(1_200, 30_000), &glong, &|rng| (vec![*rng.pick(&[Stage::Sort, Stage::SortBy, Stage::SortByKey])], rng.chance(1, 2)), &nt));
@@ -760,6 +787,21 @@ pub fn run_c12(p: &Params) -> Outcome {
     out.merge(rand_adp("C12", p, "c12-rand-large", p.n(6_000, 200_000), &gbig, &|rng| {
         let n = rng.range(2, 3);
         ((0..n).map(|_| gen_stage(rng, ALL_PKS, 60)).collect(), rng.chance(1, 2))
+    }, &nt));
+    // giant vectors under two-stage chains, and deep chains (four to seven stages) over ordinary ones
+    let ggiant = AGen { maxlen: 9500, init_max: 9000, vmax: 20_000, min_ops: 8, max_ops: 24, ..g.clone() };
+    out.merge(rand_adp("C12", p, "c12-rand-giant", p.n(120, 3_000), &ggiant, &|rng| {
+        ((0..2).map(|_| gen_stage(rng, ALL_PKS, 9000)).collect(), rng.chance(1, 2))
+    }, &nt));
+    out.merge(rand_adp("C12", p, "c12-rand-deep", p.n(4_000, 100_000), &g, &|rng| {
+        let n = rng.range(4, 7);
+        ((0..n).map(|_| gen_stage(rng, ALL_PKS, 8)).collect(), rng.chance(1, 2))
+    }, &nt));
+    // thousands of messages waiting in a channel of thousands and transactions of thousands of diffs (small
+    // vectors): one poll of a batched chain handles thousands of diffs
+    let gscale = AGen { caps: &[2048, 4096, 8192], maxlen: 40, init_max: 30, vmax: 20_000, min_ops: 1100, max_ops: 2600, poll_pct: 1, txn_pct: 10, lazy_only: true, drop_pm: 0, close_pm: 0, ..g.clone() };
+    out.merge(rand_adp("C12", p, "c12-rand-scale", p.n(100, 3_000), &gscale, &|rng| {
+        ((0..2).map(|_| gen_stage(rng, ALL_PKS, 30)).collect(), rng.chance(1, 2))
     }, &nt));
     out.merge(rand_adp("C12", p, "c12-rand-backlog", p.n(1_500, 40_000), &backlog(&g), &|rng| {
         let n = rng.range(2, 3);
@@ -1101,6 +1143,13 @@ pub fn run_c15(p: &Params) -> Outcome {
     // large vectors: views with dozens of items, sources beyond one imbl chunk (64)
     let gbig = AGen { maxlen: 110, init_max: 90, vmax: 400, max_ops: 30, ..g.clone() };
     out.merge(rand_adp("C15", p, "c15-rand-large", p.n(6_000, 200_000), &gbig, &|rng| (vec![gen_lim(rng, &[Kind::Head, Kind::Tail], &[PK::Static], 90)], rng.chance(1, 2)), &nt));
+    // giant vectors: thousands of items (imbl's tree gets a third level above 4096), limits and views in the thousands
+    let ggiant = AGen { maxlen: 9500, init_max: 9000, vmax: 20_000, min_ops: 8, max_ops: 30, ..g.clone() };
+    out.merge(rand_adp("C15", p, "c15-rand-giant", p.n(150, 4_000), &ggiant, &|rng| (vec![gen_lim(rng, &[Kind::Head, Kind::Tail], &[PK::Static], 9000)], rng.chance(1, 2)), &nt));
+    // thousands of messages waiting in a channel of thousands and transactions of thousands of diffs (small
+    // vectors): one poll of a batched chain handles thousands of diffs
+    let gscale = AGen { caps: &[2048, 4096, 8192], maxlen: 40, init_max: 30, vmax: 20_000, min_ops: 1100, max_ops: 2600, poll_pct: 1, txn_pct: 10, lazy_only: true, drop_pm: 0, close_pm: 0, ..g.clone() };
+    out.merge(rand_adp("C15", p, "c15-rand-scale", p.n(100, 3_000), &gscale, &|rng| (vec![gen_lim(rng, &[Kind::Head, Kind::Tail], &[PK::Static], 40)], rng.chance(2, 3)), &nt));
     // long histories on small vectors (accumulating state, repeated Resets, many limit changes)
     let glong = AGen { min_ops: 150, max_ops: 400, caps: &[1, 2, 3, 5, 8, 16], ..g.clone() };
     out.merge(rand_adp("C15", p, "c15-rand-long", p.n(1_200, 30_000), &glong, &|rng| (vec![gen_lim(rng, &[Kind::Head, Kind::Tail], &[PK::Static], 8)], rng.chance(1, 2)), &nt));
